@@ -220,9 +220,20 @@ fn mutate(b: &mut Vec<u8>, ch: &mut Ch, other: &[u8]) -> &'static str {
                 let rep: [&[u8; 2]; 6] = [b"__", b"ab", b":a", b"a:", b"  ", b"\0\0"];
                 b[i..i + 2].copy_from_slice(rep[ch.pick(6)]);
                 "path-separator"
+            } else if letters.len() >= 2 && ch.chance(1, 3) {
+                // a separator written over two adjacent name characters (one name becomes a path)
+                let pairs: Vec<usize> = letters.windows(2).filter(|w| w[1] == w[0] + 1).map(|w| w[0]).collect();
+                if pairs.is_empty() {
+                    "text-none"
+                } else {
+                    let i = pairs[ch.pick(pairs.len())];
+                    b[i] = b':';
+                    b[i + 1] = b':';
+                    "separator-inserted"
+                }
             } else if !letters.is_empty() {
                 let i = letters[ch.pick(letters.len())];
-                b[i] = [b':', b'.', b' ', b'0', b'A', b'-', 0, 0xff, b'$'][ch.pick(9)];
+                b[i] = [b':', b'.', b' ', b'0', b'A', b'-', 0, 0xff, b'$', b'#'][ch.pick(10)];
                 "name-character"
             } else {
                 "text-none"
